@@ -59,7 +59,7 @@ impl Harness for C00 {
             "flaky" if target => {
                 let t = std::time::SystemTime::now().duration_since(std::time::UNIX_EPOCH).unwrap().subsec_nanos();
                 if t % 2 == 0 || !mc::sampling() {
-                    mc::violation(format!("toy.op:flaky{}", t % 7), "only sometimes");
+                    mc::violation("toy.op:flaky", "only sometimes");
                 }
             }
             _ => {}
